@@ -1,2 +1,228 @@
-//! harnesses mounted into the crate (see DESIGN.md 3.1)
+//! C19: the processor / cleanup code of the ASYNC flavour (`cache/async.rs`,
+//! `try_cleanup_async`), instantiated on the same kind of parked fixture as the sync flavour.
+//! The async client methods and task loops (executor, wakers, futures::select!) cannot be
+//! executed by Kani and are outside. Child of `crate::cache::async`; needs features sync+async.
 #![allow(dead_code, unused_imports)]
+use super::*;
+#[cfg(feature = "sync")]
+mod both {
+    use super::*;
+    use crate::policy::verif_harness::pasync::mk_policy_async;
+    use crate::policy::verif_harness::{any_tinylfu, slfu_from, COST_MAX};
+    use crate::store::verif_harness::{any_ent, raw, store_from, GEnt, NdValidator, Store};
+    use crate::ttl::verif_harness::{self as th, any_duration, time_at};
+    use crate::verif_env::rec::{RecCb, NT};
+    use crate::verif_env::{clock, mrec, HS};
+    use crate::verif_nd::{self as nd, harness, vassert, vcover};
+
+    #[cfg(kani)]
+    use crate::verif_env::stubs;
+
+    pub(crate) type AProc = CacheProcessor<u64, NdValidator, RecCb, HS>;
+
+    pub(crate) struct AParked {
+        pub proc_: AProc,
+        pub cb: Arc<RecCb>,
+        pub store: Arc<Store>,
+        pub policy: Arc<AsyncLFUPolicy<HS>>,
+        pub metrics: Arc<Metrics>,
+    }
+
+    /// the async processor wired as `AsyncCacheBuilder::finalize` wires it, no task spawned
+    pub(crate) fn park_async(store: Store, ents: [Option<(u64, i64)>; 3], ignore_internal_cost: bool, metrics_on: bool) -> AParked {
+        let (_buf_tx, buf_rx) = bounded::<Item<u64>>(2);
+        let (_stop_tx, stop_rx) = stop_channel();
+        let (_clear_tx, clear_rx) = unbounded::<()>();
+        let store = Arc::new(store);
+        let metrics = Arc::new(mrec::make(metrics_on));
+        let (policy, worker) = mk_policy_async(any_tinylfu(1, 6), slfu_from(ents, nd::any_i64_in(-COST_MAX, COST_MAX)), metrics.clone());
+        let policy = Arc::new(policy);
+        let callback = Arc::new(RecCb::new());
+        let proc_ = CacheProcessor::new(
+            100000,
+            ignore_internal_cost,
+            Duration::from_millis(500),
+            store.clone(),
+            policy.clone(),
+            buf_rx,
+            stop_rx,
+            clear_rx,
+            metrics.clone(),
+            callback.clone(),
+        );
+        std::mem::forget((_buf_tx, _stop_tx, _clear_tx, worker));
+        AParked { proc_, cb: callback, store, policy, metrics }
+    }
+
+    fn any_aparked(ttl: u8) -> (AParked, Option<GEnt>, [Option<(u64, i64)>; 3], bool) {
+        let now = clock::set_nd(1000, th::SECS_MAX);
+        let mut a = if nd::any_bool() { Some(any_ent(now, ttl, 4)) } else { None };
+        if let Some(x) = a.as_mut() {
+            x.val = 0;
+        }
+        let store = store_from(a, None, None, NdValidator::new(Some(true)));
+        let mut ents: [Option<(u64, i64)>; 3] = [None, None, None];
+        if let Some(x) = a {
+            ents[0] = Some((x.key, nd::any_i64_in(0, COST_MAX)));
+        }
+        let ignore = nd::any_bool();
+        (park_async(store, ents, ignore, true), a, ents, ignore)
+    }
+
+    macro_rules! async_harness {
+        ([$($k:meta),* $(,)?] fn $name:ident() $body:block) => {
+            harness! {
+                [kani::stub(std::sync::Arc::drop_slow, stubs::arc_drop_slow),
+                 kani::stub(parking_lot::RawMutex::lock_slow, stubs::mutex_lock_slow),
+                 kani::stub(parking_lot::RawMutex::unlock_slow, stubs::mutex_unlock_slow),
+                 kani::stub(parking_lot::RawRwLock::lock_shared_slow, stubs::rw_lock_shared_slow),
+                 kani::stub(parking_lot::RawRwLock::lock_exclusive_slow, stubs::rw_lock_exclusive_slow),
+                 kani::stub(parking_lot::RawRwLock::unlock_shared_slow, stubs::rw_unlock_shared_slow),
+                 kani::stub(parking_lot::RawRwLock::unlock_exclusive_slow, stubs::rw_unlock_exclusive_slow),
+                 kani::stub(crate::metrics::Metrics::add, mrec::add),
+                 kani::stub(crate::metrics::Metrics::is_op, mrec::is_op),
+                 kani::stub(crate::metrics::Metrics::track_eviction, mrec::track_eviction),
+                 kani::stub(std::fmt::format, stubs::fmt_format),
+                 $($k),*]
+                fn $name() $body
+            }
+        };
+    }
+
+    async_harness! {
+        [kani::unwind(6)]
+        fn c19_async_proc_update_delete() {
+            // the async processor's Update / Delete arms satisfy the same assertions as the sync ones
+            let (mut p, a, ents, ignore) = any_aparked(0);
+            let k = nd::any_u64();
+            let before = raw(&p.store, k);
+            let isz = if ignore { 0 } else { p.store.item_size() as i64 };
+            if nd::any_bool() {
+                let cost = nd::any_i64_in(0, COST_MAX);
+                let ext = nd::any_i64_in(0, COST_MAX);
+                let r = p.proc_.handle_insert_event(Ok(Item::Update { key: k, cost, external_cost: ext }));
+                vassert!(r.is_ok(), "handling an Update item does not fail");
+                if before.is_some() {
+                    vassert!(p.policy.cost(&k) == cost + ext + isz, "an update re-charges the entry with the new cost plus internal overhead");
+                } else {
+                    vassert!(!p.policy.contains(&k), "an Update for an absent key charges nothing");
+                }
+                vassert!(raw(&p.store, k) == before && p.cb.all() == 0, "an Update item touches neither the store nor the callbacks");
+                vcover!(before.is_some(), "update of a resident");
+            } else {
+                let r = p.proc_.handle_insert_event(Ok(Item::Delete { key: k, conflict: 0 }));
+                vassert!(r.is_ok(), "handling a Delete item does not fail");
+                vassert!(raw(&p.store, k).is_none() && !p.policy.contains(&k), "after a Delete the key is neither resident nor charged");
+                match before {
+                    Some(e) => vassert!(p.cb.exits(e.val) == 1 && p.cb.all() == 1, "the removed value is handed to on_exit exactly once"),
+                    None => vassert!(p.cb.all() == 0, "deleting an absent key triggers no callback"),
+                }
+                vcover!(before.is_some(), "delete of a resident");
+            }
+            if let Some(e) = a {
+                if e.key != k {
+                    vassert!(raw(&p.store, e.key) == Some(e) && p.policy.cost(&e.key) == ents[0].unwrap().1, "other entries are untouched");
+                }
+            }
+            let _ = &mut p;
+            std::mem::forget(p);
+        }
+    }
+
+    async_harness! {
+        [kani::unwind(5),
+         kani::stub(crate::ttl::ExpirationMap::try_cleanup, crate::ttl::verif_harness::emrec::try_cleanup)]
+        fn c19_async_tick() {
+            // the async cleanup (handle_cleanup_event -> try_cleanup_async) for an ARBITRARY listing
+            // handed out by the expiry index: only entries whose own TTL has elapsed are reclaimed,
+            // each through on_evict once with its charged cost
+            let now0 = clock::set_nd(1000, th::SECS_MAX);
+            let mut e = any_ent(now0, 2, 4);
+            e.val = 0;
+            let resident = nd::any_bool();
+            let hand_out = nd::any_bool();
+            let lk = nd::any_u64();
+            let lc = nd::any_u64();
+            #[cfg(kani)]
+            let listing = None;
+            #[cfg(not(kani))]
+            let listing = if hand_out { Some((now0.as_secs() as i64, lk, lc)) } else { None };
+            let store = crate::store::verif_harness::store_from_opt(if resident { Some(e) } else { None }, None, listing, NdValidator::new(Some(true)), false);
+            let charge = nd::any_i64_in(0, COST_MAX);
+            let mut p = park_async(store, [if resident { Some((e.key, charge)) } else { None }, None, None], nd::any_bool(), true);
+            #[cfg(kani)]
+            crate::ttl::verif_harness::emrec::set(hand_out, lk, lc);
+            let now = clock::advance_nd(6);
+            let r = p.proc_.handle_cleanup_event();
+            vassert!(r.is_ok(), "the cleanup event does not fail");
+            if resident {
+                let still = raw(&p.store, e.key).is_some();
+                let elapsed = !e.exp.is_zero() && now >= th::deadline(&e.exp);
+                vassert!(still || elapsed, "cleanup never removes an entry whose TTL has not elapsed (or that has none), whatever the expiry index hands out");
+                vassert!(still == (p.cb.total(0) == 0), "resident or handed to exactly one callback");
+                vassert!(still == p.policy.contains(&e.key), "resident iff charged after the tick");
+                if !still {
+                    vassert!(p.cb.evicts(0) == 1 && p.cb.cost_of(0) == charge, "an expired value goes to on_evict exactly once with its charged cost");
+                }
+                if hand_out && lk == e.key && (lc == 0 || lc == e.conflict) && elapsed {
+                    vassert!(!still, "an elapsed entry handed out by the expiry index is reclaimed");
+                }
+                vcover!(!still, "entry reclaimed");
+                vcover!(still && hand_out && lk == e.key && e.exp.is_zero(), "a listing of an entry without TTL is handed out");
+            } else {
+                vassert!(p.cb.all() == 0, "nothing is reported for keys that are not resident");
+                vcover!(hand_out, "stale listing of an absent key");
+            }
+            std::mem::forget(p);
+        }
+    }
+
+    #[cfg(kani)]
+    async_harness! {
+        [kani::unwind(6),
+         kani::stub(crate::policy::AsyncLFUPolicy::add, crate::policy::verif_harness::pasync::add_wiring_async),
+         kani::stub(crate::store::ShardedMap::try_insert, crate::store::verif_harness::storerec::try_insert),
+         kani::stub(crate::store::ShardedMap::try_remove, crate::store::verif_harness::storerec::try_remove)]
+        fn c19_async_new_wiring() {
+            // the New arm of the async processor issues the same store operations and callbacks
+            use crate::policy::verif_harness::psync as ps;
+            use crate::store::verif_harness::storerec as sr;
+            let (mut p, _a, _ents, ignore) = any_aparked(0);
+            unsafe {
+                ps::ADD_CALLS = 0;
+            }
+            sr::reset();
+            let k = nd::any_u64();
+            let conflict = nd::any_u64();
+            let cost = nd::any_i64_in(0, COST_MAX);
+            let d = any_duration(4);
+            let isz = if ignore { 0 } else { p.store.item_size() as i64 };
+            let r = p.proc_.handle_insert_event(Ok(Item::New { key: k, conflict, cost, value: 2, expiration: time_at(clock::get(), d) }));
+            vassert!(r.is_ok(), "handling a New item does not fail");
+            unsafe {
+                vassert!(ps::ADD_CALLS == 1 && ps::ADD_KEY == k && ps::ADD_COST == cost + isz, "the policy is asked once with cost plus internal overhead unless ignored");
+                if ps::ADD_OUT_ADDED {
+                    vassert!(sr::INSERTS == 1 && sr::INS_KEY == k && sr::INS_CONFLICT == conflict && sr::INS_VAL == 2, "an admitted item is stored exactly once");
+                    vassert!(p.cb.total(2) == 0, "an admitted value is not handed to any callback");
+                } else {
+                    vassert!(sr::INSERTS == 0 && p.cb.rejects(2) == 1 && p.cb.total(2) == 1 && p.cb.cost_of(2) == cost + isz, "a refused value goes to on_reject once with the charged cost");
+                }
+                let n = ps::ADD_OUT_N;
+                vassert!(sr::REMOVES == n, "every victim reported by the policy is removed from the store, whether or not the newcomer was admitted");
+                let mut evicted = [0u8; 2];
+                let mut i = 0;
+                while i < n {
+                    vassert!(sr::REM_KEYS[i] == ps::ADD_OUT_KEYS[i] && sr::REM_CONFLICTS[i] == 0, "victims are removed by index hash, in the reported order");
+                    if sr::REM_FOUND[i] {
+                        evicted[sr::REM_VALS[i] as usize] += 1;
+                    }
+                    i += 1;
+                }
+                vassert!(p.cb.evicts(0) == evicted[0] && p.cb.evicts(1) == evicted[1], "every victim found in the store is handed to on_evict exactly once");
+                vcover!(!ps::ADD_OUT_ADDED && n == 2, "rejected after two evictions");
+                vcover!(ps::ADD_OUT_ADDED && n == 0, "admitted without victims");
+            }
+            std::mem::forget(p);
+        }
+    }
+}
